@@ -1,6 +1,6 @@
 """C01 — fixture resolution follows pytest's shadowing order."""
 from .. import core, wsgen
-from .common import Run, split_spec
+from .common import Run, split_spec, check_spec, corpus_cases, load_case_file, generic_replay
 
 PROP = "C01"
 MODULE = "PLS.Props.C01"
@@ -13,35 +13,6 @@ RULE = ("workspaces from tools/plsv/wsgen.py (directory depth 0-3, 12 conftest m
         "by (modes, sibling, plugin, third-party, same-file count, usage kinds, using level)")
 
 
-def check_spec(run, cases, ia, ma, sp, kinds=("goto", "resolve")):
-    """impl answer must be one of the spec-acceptable definitions"""
-    v = run.verdict
-    nfail = 0
-    for k, s in sp.items():
-        q = cases.queries[k]
-        if q[1] not in kinds:
-            continue
-        a = ia.get(k)
-        if a is None:
-            continue
-        acc, flags = split_spec(s)
-        ok = (a == "none" and not acc) or (a in acc)
-        if ok:
-            continue
-        nfail += 1
-        same = core.agree(a, ma.get(k, ""))
-        explained = [run.known_by_hyp[h] for h in flags if h in run.known_by_hyp]
-        if same and explained:
-            e = explained[0]
-            v.known(e["id"], e["summary"])
-            continue
-        msg = (f"{' '.join(q)} in case {k[0]}: implementation answers {a}, the property allows {acc or 'nothing'}"
-               f" (model answers {ma.get(k)}; failed hypotheses: {sorted(flags) or 'none'})")
-        rep = (f"# {msg}\n# failing query is #{k[1]}: {' '.join(q)}\n" + cases.replay_text(k[0]))
-        v.violation(f"{k[0]}-{k[1]}", msg, rep)
-    run.stats["spec_failures_explained_or_not"] = run.stats.get("spec_failures_explained_or_not", 0) + nfail
-
-
 def run(tier, seed):
     r = Run(PROP, MODULE, THEOREMS, tier, seed)
     if not r.prepare():
@@ -49,7 +20,7 @@ def run(tier, seed):
     n = 150 if tier == "quick" else 2500
     cases = core.Cases()
     r.last_cases = cases
-    corpus_cases(cases)
+    corpus_cases(cases, PROP)
     for i in range(n):
         ws = wsgen.gen_workspace(r.rng)
         name = "w%d" % i
@@ -80,37 +51,6 @@ def run(tier, seed):
     return r.finish(RULE)
 
 
-def corpus_cases(cases):
-    """minimised past failures and the witnesses of known findings run first"""
-    import glob, os
-    for p in sorted(glob.glob(os.path.join(core.VERIF, "corpus", PROP, "*.case"))):
-        load_case_file(cases, p)
-
-
-def load_case_file(cases, path):
-    for line in open(path, encoding="utf-8"):
-        line = line.rstrip("\n")
-        if not line or line.startswith("#"):
-            continue
-        t = line.split()
-        if t[0] == "case":
-            cases.case(t[1], {"corpus": os.path.basename(path)} if False else {"corpus": path})
-        elif t[0] == "op":
-            cases.op(*t[1:])
-        elif t[0] == "q":
-            cases.q(*t[1:])
-        else:
-            cases.raw(line)
-
 
 def replay(path):
-    r = Run(PROP, MODULE, THEOREMS, "quick", 0)
-    r.prepare()
-    cases = core.Cases()
-    load_case_file(cases, path)
-    ia, ma, sp = r.run_cases(cases)
-    for k in sorted(cases.queries):
-        print(k[0], k[1], " ".join(cases.queries[k]))
-        print("   impl :", ia.get(k)); print("   model:", ma.get(k))
-        if k in sp: print("   spec :", sp[k])
-    return 0
+    return generic_replay(PROP, MODULE, THEOREMS, path)
